@@ -337,6 +337,89 @@ def case_encoding(ctx, inp):
         ctx.branch("encoding:non-ascii-delimiter")
 
 
+def _keys_of(collection):
+    """all keys of the graph of a dask collection / a list of delayed values"""
+    import dask
+    from dask.base import collections_to_expr
+    out = set()
+    for c in (collection if isinstance(collection, (list, tuple)) else [collection]):
+        out |= set(dict(c.__dask_graph__()))
+    return out
+
+
+def case_joint(ctx, inp):
+    """Several readings of the SAME unchanged file(s) with different parameters (blocksize, delimiter,
+    files_per_partition, include_path) evaluated in ONE graph (dask.compute of all, db.concat): every reading must
+    give what it gives on its own — and what the file says. Readings with different parameters must not share a key
+    for tasks that do different things (a shared key makes the graph merge keep one task for both)."""
+    import dask
+    import dask.bag as db
+    from dask.bag.text import read_text
+    from dask.bytes import read_bytes
+    files, d = inp["files"], inp["delim"]
+    delim = _b(d).decode("utf-8")
+    texts = [_b(f).decode("utf-8") for f in files]
+    with U.files(inp.get("fs", "mem"), files) as paths:
+        # ---- read_bytes: the same first file at several blocksizes ----
+        rb = []
+        for bs in inp["bss"]:
+            _, out = read_bytes(paths[0], delimiter=_b(d), blocksize=bs, sample=False)
+            rb.append(out[0])
+        solo = [[bytes(x) for x in dask.compute(*o, scheduler="sync")] for o in rb]
+        flat = [x for o in rb for x in o]
+        together = [bytes(x) for x in dask.compute(*flat, scheduler="sync")]
+        pos = 0
+        for bs, o, s_ in zip(inp["bss"], rb, solo):
+            got = together[pos:pos + len(o)]
+            pos += len(o)
+            if b"".join(s_) != _b(files[0]):
+                ctx.fail("read_bytes blocks (computed alone) do not concatenate to the file", observed=[bs, [list(x) for x in s_]])
+            if got != s_:
+                ctx.fail("read_bytes: the blocks of one reading change when another reading of the same file with a different "
+                         "blocksize is computed in the same graph", observed=[bs, [list(x) for x in got]], expected=[list(x) for x in s_])
+        # tasks with the same key must produce the same block (the graph merge keeps one task per key)
+        seen = {}
+        for bs, o, s_ in zip(inp["bss"], rb, solo):
+            for blk, content in zip(o, s_):
+                prev = seen.setdefault(blk.key, (bs, content))
+                if prev[1] != content:
+                    ctx.fail("read_bytes: two readings of the same file give DIFFERENT blocks the same key",
+                             observed=[blk.key, [prev[0], list(prev[1])], [bs, list(content)]])
+                    ctx.branch("joint:key-collision")
+                elif prev[0] != bs:
+                    ctx.branch("joint:shared-key-same-block")
+        # ---- read_text: the same files with different parameters ----
+        variants = []
+        for bs in inp["bss"]:
+            variants.append(("blocksize=%r" % (bs,), dict(blocksize=bs)))
+        if len(files) > 1:
+            variants.append(("files_per_partition=2", dict(files_per_partition=2)))
+        variants.append(("include_path", dict(include_path=True, blocksize=inp["bss"][0])))
+        bags = [read_text(paths, encoding="utf-8", linedelimiter=delim, **kw) for _, kw in variants]
+        solo = [list(b.compute(scheduler="sync")) for b in bags]
+        joint = [list(x) for x in dask.compute(*bags, scheduler="sync")]
+        want = [l for t in texts for l in U.ref_lines(t, delim)]
+        bordered = U.has_border(d)
+        for (name, kw), s_, j_ in zip(variants, solo, joint):
+            lines = [x[0] if kw.get("include_path") else x for x in s_]
+            if lines != want and not (bordered and "".join(lines) == "".join(texts)):
+                ctx.fail("read_text (computed alone) differs from the files split after each delimiter", observed=[name, lines], expected=want)
+            if j_ != s_:
+                ctx.fail("read_text: a reading changes when other readings of the same files (different blocksize / "
+                         "files_per_partition / include_path) are computed in the same graph", observed=[name, j_], expected=s_)
+        plain = [b for (name, kw), b in zip(variants, bags) if not kw.get("include_path")]
+        cat = list(db.concat(plain).compute(scheduler="sync"))
+        want_cat = [x for (name, kw), s_ in zip(variants, solo) if not kw.get("include_path") for x in s_]
+        if cat != want_cat:
+            ctx.fail("db.concat of readings of the same files with different parameters is not the concatenation of the readings",
+                     observed=cat, expected=want_cat)
+    if len(set(inp["bss"])) > 1:
+        ctx.branch("joint:different-blocksizes")
+    if len(files) > 1:
+        ctx.branch("joint:several-files")
+    ctx.branch("joint")
+
+
 def _read_text(paths, **kw):
     from dask.bag.text import read_text
     return list(read_text(paths, encoding="utf-8", **kw).compute(scheduler="sync"))
@@ -478,7 +561,7 @@ def case_gzip(ctx, inp):
     ctx.branch("gzip")
 
 
-CASES = {"blocksnz": case_blocksnz, "sample": case_sample, "encode": case_encode, "encoding": case_encoding,
+CASES = {"joint": case_joint, "blocksnz": case_blocksnz, "sample": case_sample, "encode": case_encode, "encoding": case_encoding,
          "gzip": case_gzip, "plan": case_plan, "round53": case_round53, "seek": case_seek, "readblock": case_readblock,
          "decode": case_decode, "ftb": case_ftb, "blocks": case_blocks, "readtext": case_readtext,
          "multifile": case_multifile}
@@ -548,6 +631,19 @@ def generate(ctx):
         bs = rng.choice(gen_blocksizes(rng, len(data))) if rng.random() < 0.93 else None
         yield "blocks", {"d": d, "data": data, "bs": bs, "fs": "tmp" if rng.random() < 0.2 else "mem",
                          "strbs": rng.random() < 0.3}
+    # ---- several readings of the same file in one graph ---------------------------------------------
+    yield "joint", {"files": [list(b"ab|cd|ef|gh|")], "delim": [124], "bss": [None, 3, 5]}
+    for _ in range(ctx.n(70, 1000)):
+        d = list(rng.choice([x for x in DELIMS if not U.has_border(list(x))]))
+        files = []
+        for _ in range(rng.choice([1, 1, 2, 3])):
+            f = gen_data(rng, d, 24)
+            files.append(f if _valid_utf8(bytes(f)) else list(d))
+        if not files[0]:
+            files[0] = list(d) + [120] + list(d)
+        n0 = len(files[0])
+        bss = rng.sample([None, 1, 2, 3, max(1, n0 // 2), max(1, n0 // 3), n0, n0 + 3], rng.choice([2, 3]))
+        yield "joint", {"files": files, "delim": d, "bss": bss, "fs": "tmp" if rng.random() < 0.1 else "mem"}
     # ---- delimiters placed exactly at / across the planned offsets ------------------------------------
     for _ in range(ctx.n(60, 900)):
         d = list(rng.choice(DELIMS[:8] + [b"\r\n", b"|||"]))
